@@ -590,3 +590,48 @@ Proof.
   intros s id w a e st LW P ID ND LS. unfold estep.
   rewrite (get_workload_status_reads_record (e_view s) id w a e LW P ND). rewrite ID, LS. reflexivity.
 Qed.
+
+(* Redis: the status entry is gone once the clock has reached its deadline (redis-safe histories) *)
+Lemma redis_status_expires : forall (h0 : list op) (report : op) (h : list op) sk v e,
+  let s := fst (run rstep r_init h0) in
+  safe_history s_init (h0 ++ report :: h) = true ->
+  spec_step s report = (s_put s sk v (Some e), ROk PUnit) -> r_now s < e ->
+  is_status_key sk = true -> forallb (quiet sk) h = true -> advances_nonneg h ->
+  e <= r_now s + elapsed h ->
+  lookup (r_kv (fst (run rstep (fst (rstep s report)) h))) sk = None.
+Proof.
+  intros h0 report h sk v e s SH SP LT K Q AN B.
+  rewrite safe_history_app in SH. apply andb_true_iff in SH. destruct SH as [S0 S1].
+  cbn [safe_history] in S1. apply andb_true_iff in S1. destruct S1 as [S1 S2].
+  pose proof (redis_state_after h0 S0) as E0. fold s in E0. rewrite <- E0 in S1, S2.
+  assert (N : NoDup (map fst (r_kv s))) by (rewrite E0; apply spec_run_nodup; apply nodup_init).
+  destruct (rstep_refines s report N S1) as [F1 _]. rewrite SP in F1, S2. cbn [fst] in F1, S2.
+  rewrite F1. set (s1 := s_put s sk v (Some e)) in *.
+  assert (N1 : NoDup (map fst (r_kv s1))) by (unfold s1, s_put; cbn [r_kv]; apply nodup_put; exact N).
+  destruct (rrun_refines h s1 N1 S2) as [E1 _]. rewrite E1.
+  apply (spec_status_expires h s1 sk v e); auto.
+  right. unfold s1, s_put. cbn [r_kv r_now]. split; [apply lookup_put_same | exact LT].
+Qed.
+
+Definition C25_redis_node_expires_partial_stmt : Prop :=
+  forall (h0 : list op) (n p : name) (ttl : Z) (h : list op),
+    let s := fst (run rstep r_init h0) in
+    let report := OSetNodeStatus n p ttl in
+    0 < ttl -> safe_history s_init (h0 ++ report :: h) = true ->
+    forallb (quiet (KNStatus n)) h = true -> advances_nonneg h -> ttl <= elapsed h ->
+    is_err (snd (rstep (fst (run rstep (fst (rstep s report)) h)) (OGetNodeStatus n))) = true.
+Lemma C25_redis_node_expires_partial_holds : C25_redis_node_expires_partial_stmt.
+Proof.
+  intros h0 n p ttl h s report T SH Q AN EL. subst report.
+  assert (SH0 := SH). rewrite safe_history_app in SH0. apply andb_true_iff in SH0. destruct SH0 as [S0 S1].
+  cbn [safe_history] in S1. apply andb_true_iff in S1. destruct S1 as [S1 _].
+  pose proof (redis_state_after h0 S0) as E0. fold s in E0. rewrite <- E0 in S1.
+  cbn [redis_safe] in S1. replace (0 <? ttl) with true in S1 by (symmetry; apply Z.ltb_lt; exact T).
+  assert (SP : spec_step s (OSetNodeStatus n p ttl) = (s_put s (KNStatus n) (VNSt n p) (Some (r_now s + ttl)), ROk PUnit)).
+  { rewrite (spec_node_report s n p ttl T), S1. reflexivity. }
+  pose proof (redis_status_expires h0 _ h _ _ _ SH SP) as EX. fold s in EX.
+  assert (L : lookup (r_kv (fst (run rstep (fst (rstep s (OSetNodeStatus n p ttl))) h))) (KNStatus n) = None).
+  { apply EX; auto; lia. }
+  set (sf := fst (run rstep (fst (rstep s (OSetNodeStatus n p ttl))) h)) in *.
+  cbn [rstep]. unfold r_get_one, r_get. rewrite L. reflexivity.
+Qed.
